@@ -856,7 +856,9 @@ func (g *gen) entity() *Entity {
 	for i := 0; i < nsum; i++ {
 		s := &TopicMessage{Fields: g.simpleFields(rapid.IntRange(0, 3).Draw(t, "nsf"))}
 		if i > 0 || rapid.Bool().Draw(t, "sumnamed") {
-			s.Name = e.Name + []string{"Summary", "Digest"}[i]
+			// not built from the entity name: Order + "OrderSummary" would collide
+			// with a sibling entity OrderOrder's default summary
+			s.Name = []string{"Overview", "Digest"}[i]
 		}
 		e.Summaries = append(e.Summaries, s)
 	}
